@@ -97,7 +97,12 @@ func VH_C17_SID() {
 	vAssert(!vIdealEq(kC[:], sidC[:]), "key-based session id equals the passphrase session id")
 	vAssert(c.HandshakePattern().Name == KK && s.HandshakePattern().Name == KK, "paired parties do not switch to the key-based pattern")
 	// a third party with another key derives a different id
+	// (the other key may be the first client's key negated: the same x
+	// coordinate, so every x-only view of the two public keys coincides)
 	var other *btcec.PrivateKey = vPrivKey("other")
+	if vBool("other_is_negated_client_key") {
+		other = vNegPrivKey(ck)
+	}
 	vAssume(!vSamePrivKey(other, ck) && !vSamePrivKey(other, sk))
 	o := NewConnData(&keychain.PrivKeyECDH{PrivKey: other}, sk.PubKey(), pwC, nil, nil, nil)
 	kO, _ := o.SID()
